@@ -194,3 +194,93 @@ func checkEscapeAgreement(p *Prog, r *Result, rule string) {
 		r.Undecided(rule, "syntax.Quote#escapes", fd.Pos(), "no escape constants found in Quote")
 	}
 }
+
+// R13g: utf8.DecodeRune* returns RuneError both for an invalid byte (width 1) and for a correctly encoded U+FFFD
+// (width 3). In Quote, every test `r == utf8.RuneError` must therefore be conjoined with a test of the width against 1:
+// otherwise a valid, printable string is refused for POSIX, or bytes are dropped when the rune is escaped as one byte.
+func checkRuneErrorWidth(p *Prog, r *Result, rule string) {
+	pkg := p.Pkg("syntax")
+	info := pkg.TypesInfo
+	fd := p.FuncDecl("syntax", "Quote")
+	if fd == nil {
+		return
+	}
+	isRuneError := func(e ast.Expr) bool {
+		sel, ok := ast.Unparen(e).(*ast.SelectorExpr)
+		if !ok || sel.Sel.Name != "RuneError" {
+			return false
+		}
+		c, ok := info.ObjectOf(sel.Sel).(*types.Const)
+		return ok && c.Pkg() != nil && c.Pkg().Path() == "unicode/utf8"
+	}
+	isWidthTest := func(e ast.Expr) bool {
+		found := false
+		ast.Inspect(e, func(n ast.Node) bool {
+			b, ok := n.(*ast.BinaryExpr)
+			if !ok || b.Op != token.EQL {
+				return true
+			}
+			for _, pair := range [][2]ast.Expr{{b.X, b.Y}, {b.Y, b.X}} {
+				if tv, ok := info.Types[pair[1]]; ok && tv.Value != nil && tv.Value.ExactString() == "1" {
+					if t := info.TypeOf(pair[0]); t != nil {
+						if bt, ok := t.Underlying().(*types.Basic); ok && bt.Info()&types.IsInteger != 0 {
+							found = true
+						}
+					}
+				}
+			}
+			return true
+		})
+		return found
+	}
+	n := 0
+	var walk func(e ast.Expr, conj []ast.Expr)
+	walk = func(e ast.Expr, conj []ast.Expr) {
+		switch x := ast.Unparen(e).(type) {
+		case *ast.BinaryExpr:
+			switch x.Op {
+			case token.LAND:
+				walk(x.X, append(conj[:len(conj):len(conj)], x.Y))
+				walk(x.Y, append(conj[:len(conj):len(conj)], x.X))
+				return
+			case token.LOR:
+				walk(x.X, conj)
+				walk(x.Y, conj)
+				return
+			case token.EQL:
+				if isRuneError(x.X) || isRuneError(x.Y) {
+					n++
+					ok := false
+					for _, c := range conj {
+						if isWidthTest(c) {
+							ok = true
+						}
+					}
+					key := fmt.Sprintf("syntax.Quote#%s with a width test", exprString(x))
+					if n > 1 {
+						key += fmt.Sprintf("#%d", n)
+					}
+					r.Check(ok, rule, key, x.Pos(), "conjoined with a test of the decoded width against 1",
+						"a decoded rune is compared with utf8.RuneError without testing that its width is 1: a correctly encoded U+FFFD is handled as an invalid byte (refused for POSIX, or escaped as one byte with the other two dropped)")
+				}
+			}
+		case *ast.UnaryExpr:
+			// under a negation the conjunct structure flips; only descend
+			walk(x.X, nil)
+		}
+	}
+	ast.Inspect(fd.Body, func(nd ast.Node) bool {
+		switch x := nd.(type) {
+		case *ast.IfStmt:
+			walk(x.Cond, nil)
+		case *ast.CaseClause:
+			for _, e := range x.List {
+				walk(e, nil)
+			}
+		}
+		return true
+	})
+	if n == 0 {
+		r.Notef("%s: Quote does not compare with utf8.RuneError", rule)
+	}
+}
